@@ -193,7 +193,18 @@ func child(job, outPath string) {
 			cr.Inconcl = append(cr.Inconcl, "probe unavailable: "+name)
 			return
 		}
-		env := univ.Bind(pf())
+		env := univ.Bind(pf(), func(e *univ.Env) {
+			// ticks(n: N) emits N events
+			e.StreamCount = func(k univ.Key) int {
+				var a map[string]any
+				if json.Unmarshal([]byte(k.Args), &a) == nil {
+					if f, ok := a["n"].(float64); ok && f > 0 {
+						return int(f)
+					}
+				}
+				return 3
+			}
+		})
 		w := &worker{cr: cr, name: name, env: env, ignore: map[int64]bool{}, wl: fmt.Sprint(env.Probe.Options["worker_limit"])}
 		w.transports()
 		return
@@ -382,6 +393,7 @@ func (w *worker) runDirect(op *opgen.Op, vars map[string]any, base univ.SeedPlan
 // transports
 
 var runs sync.Map // X-Run header -> *univ.Run
+var wsN int
 
 func (w *worker) transports() {
 	h := handler.New(w.env.ES)
@@ -544,9 +556,18 @@ func (w *worker) httpCase(base, id, q, tr, mode string) bool {
 
 func (w *worker) wsCase(base string, round int) {
 	for _, proto := range []string{"graphql-ws", "graphql-transport-ws"} {
-		for _, mode := range []string{"client-complete", "abrupt-close", "let-it-end", "silent-until-init-timeout"} {
+		for _, mode := range []string{"client-complete", "abrupt-close", "let-it-end", "silent-until-init-timeout", "server-close-in-flight", "server-close-in-flight", "server-close-in-flight"} {
 			d := websocket.Dialer{Subprotocols: []string{proto}}
-			c, _, err := d.Dial("ws"+strings.TrimPrefix(base, "http"), nil)
+			var hdr http.Header
+			if mode == "server-close-in-flight" {
+				// resolvers of the payload in flight take a few ms to wind down after the cancellation
+				wsN++
+				id := fmt.Sprint("ws", wsN)
+				runs.Store(id, &univ.Run{Plan: &univ.SeedPlan{Seed: uint64(ev.Seed())*31 + uint64(wsN), MaxList: 3, SchedMode: 5}})
+				defer runs.Delete(id)
+				hdr = http.Header{"X-Run": []string{id}}
+			}
+			c, _, err := d.Dial("ws"+strings.TrimPrefix(base, "http"), hdr)
 			if err != nil {
 				w.cr.Inconcl = append(w.cr.Inconcl, "ws dial: "+err.Error())
 				return
@@ -583,7 +604,11 @@ func (w *worker) wsCase(base string, round int) {
 			if proto == "graphql-transport-ws" {
 				start = "subscribe"
 			}
-			c.WriteJSON(map[string]any{"type": start, "id": "1", "payload": map[string]any{"query": `subscription { ticks(n: 2) { vid rs } }`}})
+			sub := `subscription { ticks(n: 2) { vid rs } }`
+			if mode == "server-close-in-flight" {
+				sub = `subscription { ticks(n: 500) { vid rs bo { vid rs } } }`
+			}
+			c.WriteJSON(map[string]any{"type": start, "id": "1", "payload": map[string]any{"query": sub}})
 			c.SetReadDeadline(time.Now().Add(10 * time.Second))
 			got := 0
 			for i := 0; i < 20; i++ {
@@ -604,6 +629,16 @@ func (w *worker) wsCase(base string, round int) {
 					}
 					if mode == "abrupt-close" {
 						break
+					}
+					if mode == "server-close-in-flight" && got == 1 {
+						// make the server close the connection from its read loop while the operation is
+						// still running: legacy protocol's connection_terminate / a message the protocol
+						// does not know
+						if proto == "graphql-ws" {
+							c.WriteJSON(map[string]any{"type": "connection_terminate"})
+						} else {
+							c.WriteJSON(map[string]any{"type": "bogus"})
+						}
 					}
 				}
 				if t == "complete" {
